@@ -221,7 +221,7 @@ class Check:
         return model
 
     def diff(self, ops_file, impl_file, model_file, stateful=False, hbin=None, exe=None, exe_args=None, max_report=8,
-             prefer_property=False):
+             prefer_property=False, fail_first=False):
         """line-by-line comparison. Pure (stateless) streams: a differing line is its own minimal case.
         Stateful streams are split into cases by '# case' comment lines and shrunk by delta debugging.
         prefer_property (stateful only): when a case contains a property-op failure on the implementation (FAIL/panic)
@@ -271,6 +271,12 @@ class Check:
             return
         # stateful: group by case
         cases = split_cases(ops)
+        if fail_first:
+            # (optional) report cases in which the implementation's own property oracle failed before mere
+            # correspondence mismatches, cut them at the first FAIL line and keep a FAIL line while shrinking
+            def has_fail(ab):
+                return any(impl[i].startswith("FAIL") or impl[i].startswith("panic") for i in range(ab[0], ab[1]))
+            cases = sorted(cases, key=lambda ab: 0 if has_fail(ab) else 1)
         reported = 0
         for (a, b) in cases:
             idx = [i for i in range(a, b) if (impl[i] != model[i] or impl[i].startswith("FAIL") or impl[i].startswith("panic")) and not ops[i].startswith("#")]
@@ -281,7 +287,7 @@ class Check:
             reported += 1
             first = idx[0]
             only_prop = False
-            if prefer_property:
+            if prefer_property or fail_first:
                 pf = [i for i in idx if impl[i].startswith("FAIL") or impl[i].startswith("panic")]
                 if pf:
                     first = pf[0]
